@@ -1,5 +1,5 @@
 SPECIFICATION GenSpec
-CONSTANTS NH = 3 GranE = 2 ES = 16 MaxLen = 3 MaxArg = 3 NV = 2 CTSet = {"raw", "plain", "elem", "elemB"} Prune = TRUE Api = "c" MaxDepth = 8
+CONSTANTS NH = 3 GranE = 2 ES = 16 MaxLen = 2 MaxArg = 2 NV = 2 CTSet = {"raw", "plain", "elem", "elemB"} Prune = TRUE Api = "c" MaxDepth = 8
 CONSTRAINT Bound
 VIEW Skel
 INVARIANTS TypeOK AliasOK Refines Balance AllGone
